@@ -5,6 +5,7 @@ import glob, hashlib, io, json, os, re, shlex, sys, contextlib
 _events = []
 _cur = [0]
 _root = [None]
+_likes = {}          # one likelihood object per (class, data, run name, function set) for the whole history, as a user's script has
 
 
 def _rel(p):
@@ -101,7 +102,10 @@ def _do(call, scratch):
         else:
             np.random.seed(call.get("seed", 0))
             opts = {"fit": {"tmax": 120, "Niter_params": [12, 12], "Nconv_params": [3, 2]}, "fisher": {"tmax": 120}, "match": {"tmax": 120}}
-            like = targets.make_like("gauss", "d.txt", call.get("run", "r"), os.path.join(scratch, call.get("data", "data_r")), call.get("fn_set", "core_maths"))
+            lk = ("gauss", "d.txt", call.get("run", "r"), os.path.join(scratch, call.get("data", "data_r")), call.get("fn_set", "core_maths"))
+            if lk not in _likes:
+                _likes[lk] = targets.make_like(*lk)
+            like = _likes[lk]
             if op == "fit":
                 import esr.fitting.test_all as m
                 fo = dict(opts["fit"])
